@@ -402,9 +402,16 @@ class ProdParser:
 
     def _SorTokens(self, tokens, until=',/'):
         """New tokens generator which has S tokens removed,
-        if followed by anything in ``until``, normally a ``,``."""
+        if followed by anything in ``until``, normally a ``,``.
+
+        Only active while ``self._sor`` is set, which is reset by the first
+        token which is not S or COMMENT, so ``tokens`` need to be wrapped
+        only once."""
         for token in tokens:
-            if token[0] == self.types.S:
+            if not self._sor:
+                # normal mode
+                yield token
+            elif token[0] == self.types.S:
                 try:
                     next_ = next(tokens)
                 except StopIteration:
@@ -424,11 +431,9 @@ class ProdParser:
                 # pass COMMENT
                 yield token
             else:
+                # normal mode again
+                self._sor = False
                 yield token
-                break
-        # normal mode again
-        for token in tokens:
-            yield token
 
     def parse(  # noqa: C901
         self,
@@ -493,6 +498,9 @@ class ProdParser:
         defaultS = True
 
         stopIfNoMoreMatch = False
+        # tokens wrapped by _SorTokens (once only) and flag if it is active
+        sortokens = None
+        self._sor = False
 
         while True:
             # get from savedTokens or normal tokens
@@ -625,7 +633,9 @@ class ProdParser:
                     if prod.nextSor:
                         # following is S or other token (e.g. ",")?
                         # remove S if
-                        tokens = self._SorTokens(tokens, ',/')
+                        if sortokens is None:
+                            tokens = sortokens = self._SorTokens(tokens, ',/')
+                        self._sor = True
                         defaultS = False
                     else:
                         defaultS = True
